@@ -117,6 +117,18 @@ def exhaustive(tier, shard, nshards):
                 if k % nshards != shard:
                     continue
                 yield {'cat': _fixed_cat(layout, c), 'cleaned': cleaned, 'convert_units': True, 'target': col, 'others': [], 'pos': 0, 'modes': ['all', 'default'], 'sub': None}
+    # index / cleaning columns requested alone while subsamples are loaded (the loader must add whatever else it needs)
+    for cleaned in (True, False):
+        for col in ['npstartA', 'npoutA', 'npstartB', 'npoutB'] + (['npstartA_merge', 'npoutA_merge', 'npstartB_merge', 'npoutB_merge', 'N_total'] if cleaned else []):
+            for AB in ('A', 'AB'):
+                if col.endswith('_merge'):
+                    # the *_merge index columns of a loaded subsample are consumed (folded into npstart/npout and removed) by design:
+                    # request them together with the *other* subsample only
+                    AB = 'B' if 'A_merge' in col else 'A'
+                k += 1
+                if k % nshards != shard:
+                    continue
+                yield {'cat': _fixed_cat('box', 2), 'cleaned': cleaned, 'convert_units': True, 'target': col, 'others': [], 'pos': 0, 'modes': [], 'sub': {'AB': AB, 'cols': ['pos', 'pid']}}
     for layout, cleaned in (('box', False), ('lc', True)):
         cols = valid_columns(layout, cleaned)
         for col in cols:
@@ -253,7 +265,18 @@ def _load(cat, d, CompaSOHaloCatalog, fields, sub):
             raise Violation('load-raised:%s:%s' % (type(e).__name__, where[-1] if where else '?'), 'target %r: CompaSOHaloCatalog(%r) raised %s: %s' % (d['target'], shown, type(e).__name__, str(e)[:400]))
 
 
+class _Consumed(Exception):
+    pass
+
+
 def _check(cat, d, CompaSOHaloCatalog):
+    try:
+        return _check_inner(cat, d, CompaSOHaloCatalog)
+    except _Consumed:
+        return {'classes': ['merge-column-consumed-by-subsample-load'], 'nontrivial': False}
+
+
+def _check_inner(cat, d, CompaSOHaloCatalog):
     target = d['target']
     lc = cat.lc
     cleaned = bool(d['cleaned'])
@@ -265,6 +288,8 @@ def _check(cat, d, CompaSOHaloCatalog):
     is_index = fam == 'index' and not lc
 
     def get(c, how):
+        if tname not in c.halos.colnames and target.endswith('_merge') and 'subsamples' in how and d['sub'] and target[len('npstart') if target.startswith('npstart') else len('npout')] in d['sub']['AB']:
+            raise _Consumed()
         if tname not in c.halos.colnames:
             raise Violation('column-missing:' + fam, 'requested column %r absent from halo table when loaded %s (columns: %s)' % (target, how, c.halos.colnames[:12]))
         return np.array(c.halos[tname], copy=True)
